@@ -50,7 +50,7 @@ func (fr *frame) doCall(instr *ssa.Call, c *ssa.CallCommon, fnv Val, args []Val,
 		impls := e.implementations(c)
 		if len(impls) == 0 {
 			// external interface method (error.Error, io.Reader...)
-			return fr.externalCall(instr, nil, c.Method.FullName(), c.Signature(), append([]Val{{T: recv}}, args...), st, reach, pos)
+			return fr.externalCall(instr, nil, c, c.Method.FullName(), c.Signature(), append([]Val{{T: recv}}, args...), st, reach, pos)
 		}
 		// havoc by union of implementations' effects; the preconditions of
 		// every possible implementation must hold
@@ -123,7 +123,7 @@ func (fr *frame) staticCall(instr *ssa.Call, c *ssa.CallCommon, callee *ssa.Func
 		return fr.applyContract(instr, callee, c, fc, args, bindings, st, reach, xedges, pos)
 	}
 	if callee.Blocks == nil || !e.inRepo(callee) {
-		return fr.externalCall(instr, callee, e.extName(callee), c.Signature(), args, st, reach, pos)
+		return fr.externalCall(instr, callee, c, e.extName(callee), c.Signature(), args, st, reach, pos)
 	}
 	// repository function without contract: inline
 	// closures of a function that is itself being verified are part of its body
@@ -132,7 +132,7 @@ func (fr *frame) staticCall(instr *ssa.Call, c *ssa.CallCommon, callee *ssa.Func
 		return fr.inline(instr, callee, args, bindings, st, reach, xedges)
 	}
 	ft.havocked[callee.String()] = true
-	return fr.havocCall(instr, callee.Signature, e.modSetLevels(callee), e.mayPanic(callee), st, reach, xedges)
+	return fr.havocCall(instr, callee.Signature, e.calleeEffects(callee, c), e.mayPanic(callee), st, reach, xedges)
 }
 
 func (ft *FT) onStack(f *ssa.Function) bool {
@@ -349,7 +349,7 @@ func (fr *frame) applyContract(instr *ssa.Call, callee *ssa.Function, c *ssa.Cal
 			ms[h] = modAny
 		}
 	} else if callee != nil && callee.Blocks != nil && e.inRepo(callee) {
-		for h, l := range e.modsets[callee] {
+		for h, l := range e.calleeEffects(callee, c) {
 			ms[h] = l
 		}
 	}
@@ -395,8 +395,15 @@ func (fr *frame) applyContract(instr *ssa.Call, callee *ssa.Function, c *ssa.Cal
 	env.cur = st
 	env.bindResults(sig, callee, res)
 	for _, en := range fc.Ensures {
+		if en.E == nil {
+			continue
+		}
 		fact, err := env.evalBool(en.E)
 		if err != nil {
+			// postconditions over locals of the callee are internal to it
+			if callee != nil && callee.Blocks != nil && strings.Contains(err.Error(), "unknown name") {
+				continue
+			}
 			e.contractError(en, err)
 			continue
 		}
@@ -406,7 +413,7 @@ func (fr *frame) applyContract(instr *ssa.Call, callee *ssa.Function, c *ssa.Cal
 }
 
 // externalCall: library function without contract.
-func (fr *frame) externalCall(instr *ssa.Call, callee *ssa.Function, name string, sig *types.Signature, args []Val, st *State, reach string, pos token.Pos) string {
+func (fr *frame) externalCall(instr *ssa.Call, callee *ssa.Function, c *ssa.CallCommon, name string, sig *types.Signature, args []Val, st *State, reach string, pos token.Pos) string {
 	ft := fr.ft
 	e := ft.e
 	u := e.u
@@ -487,8 +494,36 @@ func (fr *frame) externalCall(instr *ssa.Call, callee *ssa.Function, name string
 			} else if i-off < nparams {
 				pt = params.At(i - off).Type()
 			}
+			// the actual (pre-conversion) type of the argument decides what can be written
+			if c != nil {
+				k := i
+				if c.IsInvoke() {
+					k = i - 1
+				}
+				if k >= 0 && k < len(c.Args) {
+					pt = actualArgType(c.Args[k])
+				}
+			}
 			if pt != nil {
 				e.writableThrough(pt, ms, 0)
+			}
+		}
+		// variadic ...any arguments: elements of the varargs array
+		if c != nil {
+			for _, a := range c.Args {
+				if sl, ok := a.(*ssa.Slice); ok {
+					if al, ok := sl.X.(*ssa.Alloc); ok {
+						for _, ref := range *al.Referrers() {
+							if ia, ok := ref.(*ssa.IndexAddr); ok {
+								for _, r2 := range *ia.Referrers() {
+									if stI, ok := r2.(*ssa.Store); ok {
+										e.writableThrough(actualArgType(stI.Val), ms, 0)
+									}
+								}
+							}
+						}
+					}
+				}
 			}
 		}
 	}
